@@ -99,6 +99,60 @@ theorem response_teaches_lan (p : IntroRespView) :
     Gen.respLearnsLan p = true ∧ Gen.respLearnedLan p = p.source_lan_address := by
   simp [Gen.respLearnsLan, Gen.respLearnedLan]
 
+/-- two overlays on one Network (the normal IPv8 deployment): R and P are first connected in overlay 1 (so P is already
+    a verified peer of R network-wide and its addresses are already in R's address table), are not yet peers of each
+    other in overlay 0, and the script in overlay 0 still succeeds: the introduced addresses are reported as walkable
+    for overlay 0, R's contact attempt reaches P there and both list each other in overlay 0's get_peers() -/
+theorem intro_reaches_second_overlay (c : Cfg) :
+    mutualIn c (afterOverlayOne c) 1 = true ∧ mutualIn c (prehistoryTwo c) 0 = false ∧
+    allOkW c (prehistoryTwo c) = true := by
+  have h := of_all tableH c
+  simp only [Bool.and_eq_true, Bool.not_eq_true'] at h
+  exact ⟨h.1.1, h.1.2, h.2⟩
+
+/-- Network.get_walkable_addresses, for every node state: an address that was just discovered through overlay s, or
+    whose introducer runs overlay s, is reported as walkable for s unless it belongs to a peer already known FOR s —
+    peers known only through other overlays do not hide it -/
+theorem walkable_iff (n : Node) (s : Nat) (a : Addr) :
+    a ∈ n.walkable s ↔ ∃ w ∈ n.all, w.addr = a ∧
+      (∀ p ∈ n.getPeers s, a ∉ p.addrs) ∧
+      ((∃ k, w.by_ = some k ∧ n.hasSvc k s = true) ∨ w.service = some s) := by
+  simp only [Node.walkable, List.mem_map, List.mem_filter]
+  constructor
+  · rintro ⟨w, ⟨⟨hw, h1⟩, h2⟩, rfl⟩
+    refine ⟨w, hw, rfl, ?_, ?_⟩
+    · intro p hp hc
+      simp only [Bool.not_eq_true', List.any_eq_false] at h1
+      exact h1 p hp (by simpa using hc)
+    · simp only [Bool.or_eq_true, beq_iff_eq] at h2
+      rcases h2 with h2 | h2
+      · left
+        cases hb : w.by_ with
+        | none => rw [hb] at h2; cases h2
+        | some k => rw [hb] at h2; exact ⟨k, rfl, h2⟩
+      · right; exact h2
+  · rintro ⟨w, hw, rfl, h1, h2⟩
+    refine ⟨w, ⟨⟨hw, ?_⟩, ?_⟩, rfl⟩
+    · simp only [Bool.not_eq_true', List.any_eq_false]
+      intro p hp
+      simpa using h1 p hp
+    · simp only [Bool.or_eq_true, beq_iff_eq]
+      rcases h2 with ⟨k, hk, hs⟩ | h2
+      · left; rw [hk]; exact hs
+      · right; exact h2
+
+/-- create_introduction_request: whatever the node's age (Lamport clock), the identifier fits the 16 bit field, so the
+    request is always sent — in both styles, in every overlay -/
+theorem request_always_sent (n : Node) (dst : Addr) (ns : Bool) (s : Nat) :
+    Gen.requestIdentifier (n.clock + 1) < 65536 ∧ ((n.introRequest dst ns s).2).isSome = true := by
+  have h : Gen.requestIdentifier (n.clock + 1) < 65536 := by
+    simp only [Gen.requestIdentifier]; exact Nat.mod_lt _ (by decide)
+  refine ⟨h, ?_⟩
+  simp only [Node.introRequest, Node.tick, Option.isSome_map]
+  cases ns <;> simp [packIdent, Gen.identTruncated, h]
+example : ((({ key := 1, myLan := ⟨1, 1⟩, machineIp := 1, clock := 4294967303 } : Node).introRequest ⟨9, 9⟩ true).2).isSome = true := by
+  decide
+
 /-! ## any number of candidates: what the introducer sends depends on the chosen record only -/
 
 /-- `random.choice` returns an element of the candidate list, and returns one whenever the list is non-empty -/
@@ -106,38 +160,42 @@ theorem choice_is_a_candidate (pref : List Nat) (avail : List PeerRec) :
     (∀ q, pick pref avail = some q → q ∈ avail) ∧ (avail ≠ [] → (pick pref avail).isSome = true) :=
   ⟨fun q h => pick_mem pref avail q h, pick_isSome pref avail⟩
 
-/-- For an introducer whose table is `pre ++ q :: post` — ANY number of other verified peers before and after `q`, with
+/-- For an introducer whose list of peers in the overlay (get_peers()) is `pre ++ q :: post` — ANY number of other verified peers before and after `q`, with
     arbitrary addresses — whose choice falls on `q` (a key none of the records in `pre` carries), where the requester is
     identified as a record with another key, and `q` does not live on the introducer's own machine: the packets caused by
     the request are exactly  (1) a puncture request to q's address naming the requester's socket address as WAN walker,
     (2) the response handing out q's recorded LAN address (0.0.0.0:0 when none is recorded) and q's address. -/
-theorem introducer_packets_any_table (n : Node) (pre post : List PeerRec) (q o : PeerRec) (t : List Nat)
-    (lanSock sock dst : Addr) (ns : Bool)
-    (hpeers : n.peers = pre ++ q :: post) (hpref : n.pref = q.key :: t)
+theorem introducer_packets_any_table (n : Node) (s : Nat) (pre post : List PeerRec) (q o : PeerRec) (t : List Nat)
+    (lanSock sock dst : Addr) (ns : Bool) (ident : Nat)
+    (hpeers : n.getPeers s = pre ++ q :: post) (hpref : n.pref = q.key :: t)
     (hpre : ∀ p ∈ pre, p.key ≠ q.key)
     (hother : n.byAddress sock = some o) (hne : q.key ≠ o.key)
     (hmach : q.v4.ip ≠ n.machineIp) :
-    n.createResponse lanSock sock dst ns =
-      [⟨q.v4, .punctReq ns ⟨lanSock, sock⟩⟩,
-       ⟨dst, .introResp ns n.key ⟨sock, n.myLan, n.myWan, q.lan.getD Addr.zero, q.v4⟩ q.ns⟩] := by
-  have hav : n.available sock = (pre ++ q :: post).filter (fun p => p.key != o.key) := by
-    simp [Node.available, hother, hpeers]
+    (n.createResponse lanSock sock dst ns ident s).2 =
+      [⟨q.v4, .punctReq ns ident ⟨lanSock, sock⟩⟩,
+       ⟨dst, .introResp ns n.key ident ⟨sock, n.myLan, n.myWan s, q.lan.getD Addr.zero, q.v4⟩ q.ns⟩] := by
+  have hgp : n.tick.getPeers s = n.getPeers s := rfl
+  have hba : n.tick.byAddress sock = n.byAddress sock := rfl
+  have hav : n.tick.available sock s = (pre ++ q :: post).filter (fun p => p.key != o.key) := by
+    simp [Node.available, hba, hother, hgp, hpeers]
   have hq : (fun p : PeerRec => p.key != o.key) q = true := by simp [hne]
-  have hfind : (n.available sock).find? (fun p => p.key == q.key) = some q := by
+  have hfind : (n.tick.available sock s).find? (fun p => p.key == q.key) = some q := by
     rw [hav, filter_append_keep pre post q _ hq]
     apply find_append_skip
     · intro p hp
       have := hpre p (List.mem_filter.mp hp).1
       simp [this]
     · simp
-  have hpick : pick n.pref (n.available sock) = some q := by rw [hpref]; exact pick_pref _ _ _ _ hfind
-  have hlan : (n.view.address_is_lan q.view.address.ip) = false := by
-    simp [Node.view, PeerRec.view, hmach]
+  have hpick : pick n.tick.pref (n.tick.available sock s) = some q := by
+    have : n.tick.pref = q.key :: t := hpref
+    rw [this]; exact pick_pref _ _ _ _ hfind
+  have hlan : ((n.tick.view s).address_is_lan q.view.address.ip) = false := by
+    simp [Node.view, Node.tick, PeerRec.view, hmach]
   simp only [Node.createResponse, hpick]
   simp [Gen.introAddrs, Gen.punctReqSends, Gen.respFields, Id.run, pure, hlan]
-  simp [PeerRec.view, Node.view]
-example : ∃ n : Node, ∃ o : PeerRec, n.peers.length = 3 ∧ n.byAddress ⟨5, 5⟩ = some o ∧ o.key = 9 :=
-  ⟨{ key := 0, myLan := ⟨1, 1⟩, myWan := ⟨1, 1⟩, machineIp := 1,
+  simp [PeerRec.view, Node.view, Node.tick, Node.myWan]
+example : ∃ n : Node, ∃ o : PeerRec, (n.getPeers 4).length = 3 ∧ n.byAddress ⟨5, 5⟩ = some o ∧ o.key = 9 :=
+  ⟨{ key := 0, myLan := ⟨1, 1⟩, machineIp := 1, svcs := [(7, 4), (8, 4), (9, 4), (9, 5)],
      peers := [⟨7, ⟨7, 7⟩, none, false⟩, ⟨8, ⟨8, 8⟩, some ⟨80, 8⟩, true⟩, ⟨9, ⟨5, 5⟩, none, false⟩], pref := [8] },
    ⟨9, ⟨5, 5⟩, none, false⟩, by decide, by decide, rfl⟩
 
